@@ -222,9 +222,15 @@ class C10(Prop):
                 k = "%s/%s" % (eng, name)
                 if bit == 3:
                     k += "/" + stop_kind
-                if bit == 7 and not any(e["k"] == "call" and e.get("a") in ("stop", "stopwait", "force", "stopall")
-                                        for e in log[:free]):
-                    k = "%s/failure-reported-as-stopped" % eng
+                if bit == 7:
+                    # a stopped status that was written although no stop of any kind had been asked for
+                    asked = False
+                    for e in log:
+                        if e["k"] == "call" and e.get("a") in ("stop", "stopwait", "force", "stopall"):
+                            asked = True
+                        elif e["k"] == "st" and e.get("a") in ("UserStopped", "SystemStopped") and not asked:
+                            k = "%s/failure-reported-as-stopped" % eng
+                            break
                 if bit == 2:
                     kinds = [kn for kb, kn in KINDS if code & (1 << kb)] or ["unknown-cause"]
                     k += "/" + kinds[0]
